@@ -433,6 +433,17 @@ def r5(F, R):
         R.ok("C11-R5", "worker:update-per-draw", site, "one progress update per recorded draw")
     else:
         R.bad("C11-R5", "worker:update-per-draw", site, "progress updates per drawn iteration: %s (progress counters disagree with the trace)" % (ru,))
+    # the counters that are updated are the shared ones (what Sampler::progress() reads), not a private copy published later
+    for bb in sorted(upd):
+        t = w.blocks[bb]["term"]
+        rv = w.value(t["args"][0]) if t["args"] else ("unknown",)
+        shared = any(n[0] == "call" and strip_generics(n[1]).endswith("Mutex::lock") for n in vt_walk(rv)) or \
+            "MutexGuard<" in w.local_ty(K.root_local(w, t["args"][0]))
+        if shared:
+            R.ok("C11-R5", "worker:update-shared", "%s @%s" % (w.path, loc(t["span"])), "the per-draw update is applied to the shared progress behind its mutex")
+        else:
+            R.bad("C11-R5", "worker:update-shared", "%s @%s" % (w.path, loc(t["span"])), "the per-draw update is applied to %s, not to the shared progress behind its mutex: "
+                  "progress() lags the recorded draws (e.g. while paused)" % vt_str(rv)[:100])
     # both under the trace guard
     sites = [s for s in lock_analysis(F)[0] if s[0].path == w.path and "ChainStorage" in s[3]]
     live = set().union(*[s[5] for s in sites]) if sites else set()
@@ -593,6 +604,42 @@ def r8(F, R):
 
 
 
+def r9(F, R):
+    R.rule("C11-R9", "the controller only waits where it can be woken: inside its command loop (helpers and closures included) the only blocking operations are the "
+                     "bounded recv_timeout on the command channel, the rendezvous send of a response and mutex locks - no unbounded Receiver::recv, join, "
+                     "Condvar / Barrier wait: a wait for something a finished or finishing chain will never send blocks every later command, abort included")
+    cl = C12.controller_loop(F)
+    ca = C12.command_arms(cl) if cl is not None else None
+    if ca is None:
+        R.missing("C11-R9", "controller command loop")
+        return
+    arms, hdr, rbb = ca
+    loops = cl.natural_loops()
+    body = loops.get(hdr) or set()
+    if not body:
+        R.missing("C11-R9", "natural loop of the controller")
+        return
+    WAITS = ("Receiver::recv", "JoinHandle::join", "Condvar::wait", "Condvar::wait_while", "Barrier::wait", "thread::park", "Receiver::iter", "IntoIter::next")
+    bad = []
+    blocks_of = fn_blocks(F)
+    n = 0
+    for bb, t in cl.calls():
+        if bb not in body:
+            continue
+        n += 1
+        p = strip_generics(t["callee"].get("path", ""))
+        if p.endswith(WAITS) and not p.endswith("recv_timeout"):
+            bad.append((bb, t, p.split("::")[-2] + "::" + p.split("::")[-1]))
+        for tgt in callee_targets(F, t):
+            inner = [w_ for w_ in blocks_of.get(tgt, ()) if w_.endswith(("Receiver::recv", "JoinHandle::join", "Condvar::wait", "Barrier::wait", "thread::park"))]
+            if inner:
+                bad.append((bb, t, "%s (inside %s)" % (inner[0], tgt.split("::")[-1])))
+    for i, (bb, t, what) in enumerate(bad):
+        R.bad("C11-R9", "controller:unbounded-wait:%s" % what.split(" ")[0], "%s @%s" % (cl.path, loc(t["span"])), "the controller loop blocks in %s" % what)
+    if not bad:
+        R.ok("C11-R9", "controller:waits", cl.path, "%d calls in the command loop; the only waits are recv_timeout on the command channel, response sends and locks" % n)
+
+
 def run(F, R, config=None):
     P = K.positive_facts()
     r6(F, R, P)
@@ -602,6 +649,7 @@ def run(F, R, config=None):
         r4(F, R)
         r5(F, R)
         r8(F, R)
+        r9(F, R)
         # a Resume that can be lost leaves a chain paused for ever: the run never terminates (C12-R6 analysis of the command channel)
         from . import c12
         K.borrow_rule(R, lambda sub: c12.r6(F, sub), "C11-R7", "no control command for a live chain can be dropped: unbounded mpsc channel, `send` (C12-R6 analysis); a lost Resume "
@@ -613,6 +661,6 @@ def run(F, R, config=None):
     R.assume("user callbacks (ProgressCallback) and Model/Math implementations return")
 
 
-FEATURE_RULES = {"C11-R3": "parallel", "C11-R4": "parallel", "C11-R5": "parallel", "C11-R7": "parallel", "C11-R8": "parallel"}
+FEATURE_RULES = {"C11-R3": "parallel", "C11-R4": "parallel", "C11-R5": "parallel", "C11-R7": "parallel", "C11-R8": "parallel", "C11-R9": "parallel"}
 CONFIGS = ["all", "default", "zarr", "ndarray"]
 SELFTEST = True
